@@ -257,28 +257,29 @@ theorem raw_string_kind_witness :
   intro fuel
   cases fuel <;> simp [lexLit, printLit, Q.quote, Q.quoteBody, Q.scanBody, Q.unq]
 
-/-! ## templates on the REAL parser model (`Ecal.Parse.run`, the model of C07's `parse_wellformed`)
+/-! ## building blocks on the REAL parser model (`Ecal.Parse.run`, the model of C07's `parse_wellformed`)
 
-Token level, comment-free. Proved so far: the terminal template and the prefix template (with a hole
-hypothesis in continuation form). NOT proved yet (covered by the correspondence run only): infix template
+Token level, comment-free; these two lemmas are about the PARSER only (hand-given token sequences of the
+shape the terminal / prefix templates produce) — no printer function occurs in them. Proved so far: terminal
+and prefix shape (with a hole hypothesis in continuation form). NOT proved yet (covered by the correspondence run only): infix template
 on this model, assignment, if/elif/else, loops, try/except/otherwise/finally, func, return with value,
 import, sink, mutex, list / map literals, funccall, composition access, statement lists — and therefore
 `print_parse_stmt_partial`. -/
 
-/-- **Terminal template re-parses** (`break`, `continue`, `true`, `false`, `null`, number and string tokens):
+/-- **The parser reads a terminal** (`break`, `continue`, `true`, `false`, `null`, number and string tokens):
     a token whose null denotation is `ndTerm`, followed by a token that does not bind tighter than `rbp`, is
     read back by `run` as its own node, and the parser stops at the follower. -/
-theorem template_terminal_reparses (f rbp bb : Nat) (t nx : Ecal.Lex.Tok) (rest : List Ecal.Lex.Tok)
+theorem parser_reads_terminal (f rbp bb : Nat) (t nx : Ecal.Lex.Tok) (rest : List Ecal.Lex.Tok)
     (hn : TP.Real nx) (hterm : (TP.nodeOf bb t).nud = .term) (hb : (TP.nodeOf bb nx).binding ≤ rbp) :
     Ecal.Parse.run (f+2) rbp (TP.st bb (TP.nodeOf bb t) (nx :: rest)) =
       .ok (TP.nodeOf bb t) (TP.st bb (TP.nodeOf bb nx) rest) :=
   TP.run_term f rbp bb t nx rest hn hterm hb
 
-/-- **Prefix template re-parses** (`not x`, `-x`, `+x`, `let x`, sink attributes `kindmatch x` … `suppresses x`):
+/-- **The parser reads keyword + operand** (`not x`, `-x`, `+x`, `let x`, sink attributes `kindmatch x` … `suppresses x`):
     if the hole's tokens are read back as `v` with right binding `binding + 20` and the parser then stands
     in front of a token not binding tighter than `rbp`, keyword + hole is read back as the keyword's node
     with the single child `v`. -/
-theorem template_prefix_reparses (f rbp bb : Nat) (t h : Ecal.Lex.Tok) (ts' : List Ecal.Lex.Tok)
+theorem parser_reads_prefix (f rbp bb : Nat) (t h : Ecal.Lex.Tok) (ts' : List Ecal.Lex.Tok)
     (v nxn : Ecal.Parse.Node) (rest : List Ecal.Lex.Tok) (hh : TP.Real h)
     (hpre : (TP.nodeOf bb t).nud = .prefix)
     (hole : Ecal.Parse.run (f+1) ((TP.nodeOf bb t).binding + 20) (TP.st bb (TP.nodeOf bb h) ts') =
@@ -287,5 +288,19 @@ theorem template_prefix_reparses (f rbp bb : Nat) (t h : Ecal.Lex.Tok) (ts' : Li
     Ecal.Parse.run (f+3) rbp (TP.st bb (TP.nodeOf bb t) (h :: ts')) =
       .ok ((TP.nodeOf bb t).add (some v)) (TP.st bb nxn rest) :=
   TP.run_prefix f rbp bb t h ts' v nxn rest hh hpre hole hb
+
+/-- non-vacuity: the tokens `true <EOF>` and `not true <EOF>` satisfy the hypotheses — `not true` is read
+    back as `not(true)` by instantiating both lemmas -/
+example :
+    let tTrue : Ecal.Lex.Tok := ⟨61, 4, [116, 114, 117, 101], false, false, 0, 1, 5⟩
+    let tNot : Ecal.Lex.Tok := ⟨54, 0, [110, 111, 116], false, false, 0, 1, 1⟩
+    let tEof : Ecal.Lex.Tok := ⟨1, 8, [], false, false, 0, 1, 9⟩
+    Ecal.Parse.run 4 0 (TP.st 0 (TP.nodeOf 0 tNot) [tTrue, tEof]) =
+      .ok ((TP.nodeOf 0 tNot).add (some (TP.nodeOf 0 tTrue))) (TP.st 0 (TP.nodeOf 0 tEof) []) := by
+  intro tTrue tNot tEof
+  have hE : TP.Real tEof := by unfold TP.Real; decide
+  have hT : TP.Real tTrue := by unfold TP.Real; decide
+  have hole := parser_reads_terminal 0 ((TP.nodeOf 0 tNot).binding + 20) 0 tTrue tEof [] hE (by decide) (by decide)
+  exact parser_reads_prefix 1 0 0 tNot tTrue [tEof] _ _ [] hT (by decide) hole (by decide)
 
 end Ecal.Props.C08
